@@ -22,6 +22,12 @@ CLAIMED = {
  "C18": ("Partial: the directory red-black tree insertion is executed from empty for every arrival order and relative order of k symbolic keys; BST order, root black, no red-red edge and equal black height are asserted on every path.",
          "Trusted: engine, z3. Bounds: k<=5 (7 thorough) keys. Sector allocation, whole-file validity at real sector sizes: not yet covered in this revision.",
          "DESIGN.md §4 C18"),
+ "C04": ("The real config.GetKey, authmodel.Middleware + CertificateInfo.Allowed, server.serveSign and server.serveListKeys are executed over every configuration in the bound (keys present/absent, aliases to any name incl. self, other aliases and missing names, token present/absent, role sets, hide flags) x every caller role set x every requested name: a token is touched only if the resolved entry (one alias hop) shares a role with the caller, every other request is refused with an error before any token call, GetKey never panics, and /list_keys returns exactly the visible names the caller could sign with.",
+         "Trusted: engine, opaque logging (zerolog), json.Marshal/Unmarshal modelled as identity on the carried value (real json natively), z3. Bounds: 2 keys / 1 role (quick), 3 keys / 2 roles (thorough). TLS, x509 verification, OPA, proxy headers: not yet covered in this revision.",
+         "DESIGN.md §4 C04"),
+ "C17": ("Differential harnesses against a reference written from APPNOTE.TXT: data-descriptor width inference for every (crc, csize, usize) x {16,24}-byte descriptor followed by arbitrary bytes; central-directory header build -> parse round trip and idempotence over fully symbolic fields (both sides of the 2^32-1 thresholds).",
+         "Trusted: the APPNOTE reference in the harness, engine, z3. Known finding listed in known_findings.jsonl (24-byte descriptor with zero uncompressed size). Deflate, CRC values, real Go/Python readers as programs are outside.",
+         "DESIGN.md §4 C17"),
 }
 
 NOT_APPLICABLE = {
